@@ -311,14 +311,19 @@ type sparseRS struct {
 	pos   int64
 	recs  [][2]int64
 	orc   []int
+	zrun  int
 }
 
 func sparseByte(p int64) byte { return byte(p*131 + p>>8*31 + p>>16*17 + p>>32*7 + 5) }
 
 func (r *sparseRS) Read(p []byte) (int, error) {
 	if len(p) == 0 {
+		if r.zrun++; r.zrun > 4096 {
+			panic("livelock: more than 4096 consecutive empty reads")
+		}
 		return 0, nil
 	}
+	r.zrun = 0
 	if r.pos >= r.total {
 		return 0, io.EOF
 	}
